@@ -99,20 +99,25 @@ type c06Input struct {
 
 func c06FS(root string) {
 	files := map[string]string{
-		"goroot/src/fmt/print.go":                         "package fmt\n",
-		"gp1/src/example.com/a/a.go":                      "package a\n",
-		"gp1/src/nested/src/pkg/f.go":                     "package pkg\n",
-		"gp1/src/nested/src/pkg/g.go":                     "package pkg\n",
-		"gp1/pkg/mod/github.com/u/dep@v1.0.0/d.go":        "package dep\n",
-		"gp2/src/example.com/b/b.go":                      "package b\n",
-		"m/go.mod":                                        "module example.com/m\n",
-		"m/x.go":                                          "package m\n",
-		"m/sub/go.mod":                                    "module example.com/m/sub\n",
-		"m/sub/y.go":                                      "package sub\n",
-		"m/sub/deep/z.go":                                 "package deep\n",
-		"m2/go.mod":                                       "module example.com/m2\n",
-		"m2/w.go":                                         "package m2\n",
-		"run/main.go":                                     "package main\n",
+		"goroot/src/fmt/print.go":                  "package fmt\n",
+		"gp1/src/example.com/a/a.go":               "package a\n",
+		"gp1/src/nested/src/pkg/f.go":              "package pkg\n",
+		"gp1/src/nested/src/pkg/g.go":              "package pkg\n",
+		"gp1/pkg/mod/github.com/u/dep@v1.0.0/d.go": "package dep\n",
+		"gp2/src/example.com/b/b.go":               "package b\n",
+		"m/go.mod":                                 "module example.com/m\n",
+		"m/x.go":                                   "package m\n",
+		"m/sub/go.mod":                             "module example.com/m/sub\n",
+		"m/sub/y.go":                               "package sub\n",
+		"m/sub/deep/z.go":                          "package deep\n",
+		"m2/go.mod":                                "module example.com/m2\n",
+		"m2/w.go":                                  "package m2\n",
+		"run/main.go":                              "package main\n",
+		// the same package checked out under two GOPATH entries
+		"gp2/src/example.com/a/a.go": "package a\n\n// second checkout\n",
+		// a go.mod without a module line between a file and its real module root
+		"m/sub/deep/tools/go.mod":   "// no module directive here\n",
+		"m/sub/deep/tools/gen/g.go": "package gen\n",
 	}
 	for p, content := range files {
 		full := filepath.Join(root, p)
@@ -162,6 +167,9 @@ func c06Inputs(root string) []c06Input {
 	// the same remote roots as the inputs above, but nothing under them resolves
 	// locally (what an earlier input taught the process about a root must not leak)
 	add("fs-roots-unresolvable", g(1, "running", "nosuch.F", "", "/remote/go/src/nosuch/zz.go", 3)+g(2, "select", "example.com/none.N", "", "/r1/src/example.com/none/none.go", 3)+g(3, "select", "example.com/none2.N", "", "/remote/gp/src/example.com/none2/none.go", 4)+g(4, "select", "example.com/m.Missing", "", R+"/m/missing.go", 4), fsOpts("gp1", "gp2"), true)
+	add("fs-same-file-two-gopaths", g(1, "running", "example.com/a.A", "0x1", "/r1/src/example.com/a/a.go", 3)+g(2, "select", "example.com/b.B", "", "/r1/src/example.com/b/b.go", 4), fsOpts("gp1", "gp2"), true)
+	add("fs-same-file-two-gopaths-reversed", g(1, "running", "example.com/a.A", "0x1", "/r1/src/example.com/a/a.go", 3)+g(2, "select", "example.com/b.B", "", "/r1/src/example.com/b/b.go", 4), fsOpts("gp2", "gp1"), true)
+	add("fs-gomod-without-module-line", g(1, "running", "example.com/m/sub/deep/tools/gen.G", "0x1", R+"/m/sub/deep/tools/gen/g.go", 3)+g(2, "select", "example.com/m/sub/deep.Z", "0x3", R+"/m/sub/deep/z.go", 12), fsOpts("gp1"), true)
 	add("fs-goroot-other-remote", g(1, "running", "fmt.Println", "", "/other/go/src/fmt/print.go", 3)+g(2, "select", "nosuch.F", "", "/remote/go/src/nosuch/zz.go", 3)+g(3, "select", "example.com/a.A", "", "/r2/src/example.com/a/a.go", 3), fsOpts("gp1", "gp2"), true)
 	return in
 }
